@@ -100,7 +100,10 @@ def dec_index(e):
     if t == "list":
         return [int(x) for x in e["v"]]
     if t == "nd":
-        return np.array(e["v"], dtype=np.int64)
+        dt = e.get("dt", "int64")                                # index arrays may have a small integer element type
+        if dt != "int64" and any(not (np.iinfo(dt).min <= int(v) <= np.iinfo(dt).max) for v in e["v"]):
+            dt = "int64"                                         # (values edited after drawing no longer fit)
+        return np.array(e["v"], dtype=dt)
     if t == "tuple":
         return (dec_index(e["a"]), dec_index(e["b"]))
     raise ValueError(t)
